@@ -1071,6 +1071,9 @@ class Species(AtomCollection):
         Arguments:
             vec (np.ndarray | list(float)): Vector to translate by shape = (3,)
         """
+        # NOTE: Requires a copy as the vector may be one of the coordinates
+        vec = np.array(vec, dtype=float, copy=True)
+
         for atom in self.atoms:
             atom.translate(vec)
 
